@@ -124,6 +124,12 @@ def r4(ctx):
         a = S(b.call_args(s)[1])
         ctx.check('handle_timer|%s|new_cookies' % site_desc(b, s), re.match(r'^Ord::min\(CookieStash::gap\(\(self\.nts as Some\)\.0\.cookies\), ', a) is not None,
                   'requested cookie count is `%s`' % a[:120], s.where(), sample=a[:200])
+    builder_cookie_fields(ctx)
+
+
+def builder_cookie_fields(ctx):
+    """Both NTS request builders emit one cookie plus placeholders for 1..new_cookies, i.e. new_cookies cookie-sized fields (shared with C14-R3)."""
+    P = ctx.P
     for nm in ('nts_poll_message', 'nts_poll_message_v5'):
         pb = P.body(PKT + '::' + nm)
         ck = pb.aggregates(r'ExtensionField$', 'NtsCookie')
